@@ -41,7 +41,7 @@ MINIMA = {"quick": {"reads_compared": 500, "second_pass_requests": 200, "cases_b
 MECH = "lazy-io"
 BUF = 8192
 TIB = 1 << 40
-FORMATS = ["qcow2-64k", "qcow2-2m", "vhdx", "vhdx-4k", "vmdk-hosted", "vmdk-sesparse", "vmdk-flat", "vhd-fixed", "vhd-dyn", "vdi", "hds-v2", "hds-v1", "qcow2-comp", "vmdk-stream"]
+FORMATS = ["qcow2-64k", "qcow2-2m", "vhdx", "vhdx-4k", "vmdk-hosted", "vmdk-sesparse", "vmdk-flat", "vhd-fixed", "vhd-dyn", "vdi", "hds-v2", "hds-v1", "qcow2-comp", "vmdk-stream", "qcow2-snap"]
 
 
 def plan(tier: str, seed: int) -> list[dict]:
@@ -129,6 +129,29 @@ def build(fmt: str, rng):
     """-> (opener(handle) -> stream, backing SparseFile(s), model, meta)"""
     tag = rng.getrandbits(48)
     compressed_unit = 0
+    if fmt == "qcow2-snap":
+        # internal snapshots of a 20 TiB image whose snapshot table, L1/L2 tables and clusters all sit beyond 4 GiB
+        # (up to tens of TiB) in the file; one of the later snapshots is the stream under test
+        from dissect.hypervisor.disk.qcow2 import QCow2
+
+        cb, cs = 16, 1 << 16
+        size = 20 * TIB
+        ncl = size // cs
+        views = []
+        nsn = rng.choice([2, 3, 4])
+        hot_cl = {0, 1, ncl - 1, (1 << 32) // cs, (1 << 41) // cs, ncl // 2} | {rng.randrange(ncl) for _ in range(4)}
+        for v in range(nsn + 1):
+            kinds = {g: rng.choice("NNZ") for g in hot_cl if rng.random() < 0.8}
+            kinds.update({g: "N" for g in range(2, 40)})
+            views.append(wq.make_view(rng, size=size, cluster_bits=cb, kinds=kinds, extl2=False, tag=tag + v))
+        metas = [{"id": str(i + 1).encode(), "name": (f"snapshot {i}" * rng.randrange(1, 4)).encode(), "extra_size": rng.choice([16, 24, 40])} for i in range(nsn)]
+        img, _, meta = wq.build(rng, cluster_bits=cb, size=size, views=views, version=3, placement="shuffle", snapshots_meta=metas,
+                                far_base=rng.choice([1 << 32, 1 << 40, 1 << 44]), far_frac=1.0, tuned_frac=0.0)
+        pick = rng.randrange(max(1, nsn - 1), nsn + 1)  # one of the last two snapshots
+        l2s_pick = len({g // (cs // 8) for g in views[pick].kinds})
+        info = {"size": size, "metadata_bytes": meta["metadata_bytes"] + 4096 + (ncl // (cs // 8)) * 8 + l2s_pick * cs, "unit": cs,
+                "hot": [g * cs for g in sorted(hot_cl)], "max_off": meta["max_host_off"], "snapshot_table_offset": meta["snapshots_offset"]}
+        return (lambda fh: QCow2(fh).snapshots[pick - 1].open()), img, Model(size, [views[pick].layer]), info
     if fmt.startswith("qcow2"):
         from dissect.hypervisor.disk.qcow2 import QCow2
 
@@ -239,7 +262,9 @@ def build(fmt: str, rng):
         for b in range(2, 60):
             states[b] = "A"
         sf, layer, meta = wvhd.build_dynamic(rng, block_size=bs, nblocks=n, states=states, placement="shuffle", tag=tag,
-                                             tail_cut_sectors=rng.choice([0, rng.randrange(0, 4096)]), far_sector=0xFFFFFFFF - 70 * 4200)
+                                             tail_cut_sectors=rng.choice([0, rng.randrange(0, 4096)]), far_sector=0xFFFFFFFF - 70 * 4200,
+                                             # the dynamic header (and with it the table) may itself sit beyond 4 GiB
+                                             header_off=rng.choice([512, 6 << 30, (1 << 40) + 512]))
         info = {"size": meta["size"], "metadata_bytes": meta["metadata_bytes"], "unit": bs, "hot": [b * bs for b in sorted(hot_b)], "max_off": sf.end}
         return (lambda fh: VHD(fh)), sf, Model(meta["size"], [layer]), info
     if fmt == "vdi":
